@@ -1,6 +1,9 @@
 use crate::api::Rule;
 use crate::router::Router;
 use serde::{Deserialize, Serialize};
+#[cfg(kani)]
+use crate::verif_shim::map::HashSet;
+#[cfg(not(kani))]
 use std::collections::HashSet;
 use std::sync::Arc;
 
